@@ -139,7 +139,9 @@ func (c *TreeCacheClientImpl) GetBranchesHighesPrecedence(ctx context.Context, p
 
 	// TODO: Improve this, since it is probably an expensive operation
 	for key, entries := range c.intendedStoreIndex {
-		if strings.HasPrefix(key, pathKey) {
+		// the entry of the path itself and the entries below it; a sibling whose
+		// name merely starts with the name of the last element is not below the path
+		if key == pathKey || strings.HasPrefix(key, pathKey+KeysIndexSep) {
 			if prio := entries.GetLowestPriorityValue(filters); prio < result {
 				result = prio
 			}
